@@ -607,3 +607,66 @@ pub fn harnesses() -> Vec<H> {
             bound: "13 compositions; 3 pushes: used <= capacity for every pair, number of pairs, sum(used) >= payload + index entries, non-decreasing under push; after clear no payload accounted and no capacity shrank", kani: false },
     ]
 }
+
+// ---------------------------------------------------------------------------------------------------- long random histories (thorough tier)
+/// 12 operations drawn from {push k, clear, reserve, reserve_regions, clone-and-continue-on-the-clone, merge-and-restart}
+/// on one subject, mirrored in a model (list of (index, pool id) issued since the last clear); everything issued is
+/// re-read after every operation (C01, C02, C08, C09, C10).
+fn long_history<S: Subject>(v: &[u64])
+where
+    S::Index: PartialEq + Copy,
+{
+    let mut r = S::default();
+    let mut twin = S::default(); // receives the same pushes since the last clear/merge, never reserves, never cloned
+    let mut issued: Vec<(S::Index, u64)> = Vec::new();
+    for op in &v[1..] {
+        match *op % 10 {
+            0..=5 => {
+                let k = (*op / 10) % S::POOL;
+                let (a, b) = (r.put(k), twin.put(k));
+                vassert!(a == b, "VF:long.index_differs_from_twin");
+                issued.push((a, k));
+            }
+            6 => {
+                r.clear();
+                twin = S::default();
+                issued.clear();
+            }
+            7 => {
+                r.reserve_pool(&[(*op / 10) % S::POOL, 0]);
+                r.reserve_regions(std::iter::once(&twin));
+            }
+            8 => {
+                let c = r.clone();
+                r = c;
+            }
+            _ => {
+                let m = S::merge_regions([&r, &twin].into_iter());
+                r = m;
+                twin = S::default();
+                issued.clear();
+            }
+        }
+        for (i, k) in &issued {
+            vassert!(r.same(*i, *k), "VF:long.read_differs_from_pushed");
+        }
+    }
+}
+fn run_long(v: &[u64]) {
+    dispatch!(long_history, v)
+}
+fn pre_long(v: &[u64]) -> bool {
+    v[0] < 13 && v[1..].iter().all(|x| *x < 60)
+}
+fn doms_long() -> Vec<Vec<u64>> {
+    let mut d = vec![range(13)];
+    for _ in 0..12 {
+        d.push(range(60));
+    }
+    d
+}
+
+pub fn harnesses_long() -> Vec<H> {
+    vec![H { name: "long_histories_full", props: &["C01", "C02", "C08", "C09", "C10"], nargs: 13, pre: pre_long, doms: doms_long, run: run_long, panic_ok: false,
+        bound: "13 compositions; seeded random histories of 12 operations (push of a pool value, clear, reserve_items+reserve_regions, clone, merge_regions) mirrored on a twin; all issued indices re-read after every operation; sampled, not exhaustive (thorough tier)", kani: false }]
+}
